@@ -127,6 +127,8 @@ type Machine struct {
 	recoverable *frame
 	local       *localCtx
 	trail       []trailEntry
+	mapTrail    []mapSnap
+	syn         syncModel
 	siblings    []WorkItem
 	nondet      []ndItem
 	observes    []obsRec
@@ -199,6 +201,7 @@ func (m *Machine) resetPath(item WorkItem) {
 		m.trail[i].c.v = m.trail[i].old
 	}
 	m.trail = m.trail[:0]
+	m.syncReset()
 	m.epoch = 1
 	m.watchEpoch = 0
 	m.watching = false
@@ -240,13 +243,16 @@ func (m *Machine) noteRead(c *Cell) {
 	if m.local != nil && c.epoch < m.local.startEpoch {
 		m.local.reads = append(m.local.reads, readRec{c, c.v})
 	}
+	if m.watching && c.epoch < m.watchEpoch {
+		m.lsRead(c)
+	}
 }
 
 func (m *Machine) noteWrite(c *Cell) {
 	if m.local != nil && c.epoch < m.local.startEpoch {
 		panic(&pathEnd{endAbortLocal, "write to pre-existing object in summary"})
 	}
-	if m.watching && c.epoch < m.watchEpoch {
+	if m.watching && c.epoch < m.watchEpoch && !m.lsWrite(c) {
 		panic(&pathEnd{endWrite, "store to an object that existed before the observed operation"})
 	}
 	if c.epoch == 0 && m.initDone {
